@@ -158,11 +158,14 @@ static void vh_trace_unlock(void)
 /* idle-loop compression: a scheduler that spins on empty pools repeats the same few
  * lock-free reads (QEMPTY = 1, num_scheds, num_blocked, empty pops); a read that is
  * identical (kind, object, value) to one of the actor's last VH_IDLE_RING idle records,
- * with no other record of that actor in between, is not stored again (its repeat count
+ * with no record of ANY actor other than such reads stored in between (the recorded world has
+ * not changed, so the read observes the same state as the stored one), is not stored again (its repeat count
  * and the global position of its latest repetition are kept in the stored record). */
 #define VH_IDLE_RING 8
 static __thread uint32_t vh_tl_idle[VH_IDLE_RING];
 static __thread int vh_tl_nidle;
+static uint32_t vh_world;               /* number of stored records that are not idle reads (reads change nothing) */
+static __thread uint32_t vh_tl_world;   /* vh_world when this thread made its last idle read */
 static int vh_is_idle_kind(int kind, uintptr_t b, uintptr_t c)
 {
     return (kind == ABTI_VEV_Q_EMPTY && c == 1) || kind == ABTI_VEV_NSCHED_LOAD || kind == ABTI_VEV_NB_LOAD ||
@@ -184,6 +187,10 @@ static void vh_trace_ev(int kind, uintptr_t a, uintptr_t b, uintptr_t c)
     }
     if (vh_is_idle_kind(kind, b, c)) {
         int k;
+        if (vh_tl_world != vh_world) {
+            vh_tl_nidle = 0; /* somebody recorded an action since: read again on the record */
+            vh_tl_world = vh_world;
+        }
         for (k = 0; k < vh_tl_nidle; k++) {
             vh_event *o = &vh_events[vh_tl_idle[k]];
             if (o->kind == kind && o->a == a && o->b == b && o->c == c) {
@@ -198,8 +205,10 @@ static void vh_trace_ev(int kind, uintptr_t a, uintptr_t b, uintptr_t c)
             memmove(vh_tl_idle, vh_tl_idle + 1, sizeof(uint32_t) * (VH_IDLE_RING - 1));
             vh_tl_idle[VH_IDLE_RING - 1] = n;
         }
-    } else
+    } else {
         vh_tl_nidle = 0;
+        vh_world++;
+    }
     vh_events[n].rep = 0;
     vh_events[n].last = n;
     vh_events[n].actor = vh_actor();
